@@ -1146,6 +1146,16 @@ func vsdParent(p vsdPathIn, raw []byte, scratch string, idx int, boundS int) (ou
 		res := "panic"
 		if !stopped {
 			res = "panic-before-stop"
+		} else {
+			// the first line of the panic message, as one word
+			first := se[j:]
+			if k := strings.Index(first, "\n"); k >= 0 {
+				first = first[:k]
+			}
+			if len(first) > 90 {
+				first = first[:90]
+			}
+			res = "panic(" + strings.ReplaceAll(strings.TrimPrefix(first, "panic: "), " ", "_") + ")"
 		}
 		out.Steps = append(out.Steps, vsdStepOut{Act: vsdAct{Op: "Hang", Res: res}, Obs: obs,
 			Dump: vsdTail(se[j:], 20000)})
